@@ -1058,6 +1058,13 @@ def check_type(chk, prog, f):
         v = n["val"]
         good = False
         why = X.render(v)[:60]
+        # the class read into a local first (cls = SPIF_OBJ_CLASS(self); return (classname_t) cls;): its one definition
+        sv_ = X.strip(v)
+        if sv_ is not None and sv_.get("k") == "ref" and sv_.get("rk") == "local":
+            defs_ = [y["ch"][1] for y in walk(f.body) if y.get("k") == "assign" and y.get("op") == "=" and (X.strip(y["ch"][0]) or {}).get("d") == sv_["d"]]
+            defs_ += [dc["init"] for y in walk(f.body) if y.get("k") == "decl" for dc in y.get("decls", ()) if dc["d"] == sv_["d"] and dc.get("init") is not None]
+            if len(defs_) == 1:
+                v = defs_[0]
         # (classname_t) SPIF_OBJ_CLASS(self)  -> cast of self->cls ; or CLASS_VAR->classname
         for x in walk(v):
             if x.get("k") == "member" and x.get("n") == "cls":
